@@ -32,10 +32,10 @@ PAR = 8
 BOUND = 25.0
 
 ACTS = ["idle", "blocked", "busy", "sleep", "swallow_kbi", "sigint_ignored", "daemon_threads", "flood", "big_transfer", "endmarker_raises",
-        "callback_service", "inbound_flood", "thread_exhaustion"]
+        "callback_service", "inbound_flood", "thread_exhaustion", "unread_backlog"]
 GEVENT_ACTS = ["idle", "blocked", "gevent_sleep", "gevent_busy", "gevent_timesleep"]
 REMOVALS = ["sigkill", "sigterm", "os_exit", "normal_exit", "close_connection", "during_bootstrap"]
-TOPOS = ["popen", "python", "via", "socket"]
+TOPOS = ["popen", "python", "via", "socket"] + [t for t in ("py3.10", "py3.11", "py3.13") if __import__("glob").glob(f"/root/.pyenv/versions/{t[2:]}.*/bin/python")]
 
 
 def shards(tier, seed):
@@ -55,6 +55,8 @@ def gen_case(rng, idx):
         # the socket server (and the gateway it serves) runs inside its master's process with the master's exec model;
         # a main_thread_only master would be occupied by the server loop (documented limitation), so: thread
         model = "thread"
+    if topo.startswith("py3") and model == "gevent":
+        model = "thread"  # (gevent is installed for the initiating side's interpreter only)
     act = rng.choice(GEVENT_ACTS if model == "gevent" else ACTS)
     removal = rng.choice(REMOVALS)
     gws = []
@@ -298,6 +300,12 @@ def run_shard(spec):
         cases[1].update(gen_fixed("popen", "main_thread_only", "swallow_kbi", "os_exit"))
         cases[2].update(gen_fixed("popen", "thread", "swallow_kbi", "sigkill", stderr="pipe_reader_gone"))
         cases[4].update(gen_fixed("popen", "thread", "callback_service", "sigkill"))
+    if spec["shard"] == 1:
+        cases[0].update(gen_fixed("popen", "thread", "unread_backlog", "sigkill"))
+        cases[1].update(gen_fixed("popen", "main_thread_only", "unread_backlog", "normal_exit"))
+        if "py3.10" in TOPOS:
+            cases[2].update(gen_fixed("py3.10", "thread", "idle", "sigkill"))
+            cases[3].update(gen_fixed("py3.10", "main_thread_only", "sleep", "os_exit"))
     if spec["shard"] == 3:
         cases[0].update(gen_fixed("popen", "thread", "inbound_flood", "sigkill"))
         cases[1].update(gen_fixed("python", "main_thread_only", "inbound_flood", "sigkill"))
